@@ -118,6 +118,65 @@ func runHashmapEq(c *core.Ctx, eqPart bool) {
 				return ok && an.IsBuiltin(info, call, "append")
 			}
 		}
+		if mF != nil {
+			// a new entry is appended only where no entry for the key can exist: the bucket is absent, or the bucket was
+			// scanned (the scan returns on an equal key) before the append
+			var scans []ast.Node
+			ast.Inspect(fn.Body(), func(m ast.Node) bool {
+				rs, ok := m.(*ast.RangeStmt)
+				if !ok {
+					return true
+				}
+				hasEq := false
+				ast.Inspect(rs.Body, func(k ast.Node) bool {
+					if ex, ok := k.(ast.Expr); ok && isEqualCond(info)(ex) {
+						hasEq = true
+					}
+					return true
+				})
+				if hasEq {
+					scans = append(scans, rs)
+				}
+				return true
+			})
+			nApp := 0
+			for _, a := range g.FindAtoms(appendsTo(mF)) {
+				nApp++
+				fine := false
+				for _, blk := range g.CFG.Blocks {
+					cd, _ := g.Cond(blk)
+					if cd == nil {
+						continue
+					}
+					ex := an.Unparen(cd.(ast.Expr))
+					neg := false
+					for {
+						u, isU := ex.(*ast.UnaryExpr)
+						if !isU || u.Op != token.NOT {
+							break
+						}
+						neg = !neg
+						ex = an.Unparen(u.X)
+					}
+					id, isId := ex.(*ast.Ident)
+					if !isId || id.Name != "ok" {
+						continue
+					}
+					// `ok` is the presence of the bucket: absent when the (possibly negated) test says so
+					if g.GuardedBy(a, cd, neg) {
+						fine = true
+					}
+				}
+				for _, rs := range scans {
+					// the scan loop is left (without having returned) before the append: every path to the append passes the loop
+					if scanPrecedes(g, rs.(*ast.RangeStmt), a) {
+						fine = true
+					}
+				}
+				c.Check(fine, fmt.Sprintf("hashmap.HashMap.Set:append#%d-only-for-a-new-key", nApp), a.Pos(), "an entry is appended only to an absent bucket or after the bucket was scanned for the key",
+					"Set can append an entry to an existing bucket without first looking for the key in it: the key ends up twice in the bucket and in the key list, Get keeps returning the older entry (a written value is never read back), and map resources commit/abort/close the element twice")
+			}
+		}
 		if mF != nil && keysF != nil {
 			okB, _ := g.MustPass(nil, func(a ast.Node) bool { return isOverwrite(a) || appendsTo(mF)(a) }, nil)
 			okK, _ := g.MustPass(nil, func(a ast.Node) bool { return isOverwrite(a) || appendsTo(keysF)(a) }, nil)
@@ -365,4 +424,13 @@ func runTPCAcceptor(c *core.Ctx) {
 		c.Check(poisons, "acceptNewValue:poisons-section-in-flight", acc.Pos(), "a section that is in flight when a new value is installed is marked as failed",
 			"installing a new value does not fail the local section in flight: a section that read the overwritten value could still commit (lost update)")
 	}
+}
+
+
+// scanPrecedes: every path from the function entry to atom a runs through the range statement rs.
+func scanPrecedes(g *an.Graph, rs *ast.RangeStmt, a ast.Node) bool {
+	q := g.Search(an.Query{Target: func(y ast.Node) bool { return y == a }, Avoid: func(y ast.Node) bool {
+		return y.Pos() >= rs.Pos() && y.End() <= rs.End()
+	}})
+	return !q.Found
 }
